@@ -191,6 +191,14 @@ def _algebra(pid, tier, seed, modes, model_note, also=()):
         res.violations += [v for v in h["violations"] if v.get("prop") == pid]
         res.add_stats(vlib.merge_stats(h["stats"]))
         res.violations += validate_stream(res, "Trace_Algebra", out, mode, pid, also=also)
+    if pid == "C06":
+        # "default and custom memory manager": resolution inside histories, incl. calls one of whose requests fails (a reported success is
+        # judged as a success) and produced objects as operands (chains)
+        for mode, n_q, n_t in (("random", 300, 5000), ("chains", 300, 2000)):
+            h = vlib.run_harness(exe, ["session", "--mode", mode, "--n", str(n_t if tier == "thorough" else n_q), "--seed", str(seed + 6), "--tier", tier], out, "c06" + mode, timeout=3000)
+            res.violations += harness_crash_violations(h, pid)
+            res.add_stats(vlib.merge_stats(h["stats"]))
+            res.violations += validate_stream(res, "Trace_Session", out, "c06" + mode, pid)
     if tier == "thorough": add_suite(res, pid, out, also=also)
     res.assumptions = ALG_ASSUME
     return res
